@@ -214,14 +214,22 @@ pub open spec fn post_function(a: Unifiable, b: Unifiable, ss: RSS, res: Option<
 pub uninterp spec fn unify_ok(a: Unifiable, b: Unifiable, s: SS) -> bool;
 
 // --- `$_` at nested positions (C09) ------------------------------------------------
-// a and b match purely because of `$_` (or are equal): complex terms of the same arity
-// whose functors are equal and whose arguments match in this way, position by position
+// a and b match purely because of `$_` (or are equal): complex terms of the same arity whose
+// arguments match in this way, position by position; lists whose elements and tails do
 pub open spec fn anon_match(a: Unifiable, b: Unifiable) -> bool
     decreases a,
 {
     a is Anonymous || b is Anonymous || ueq(a, b)
     || match (a, b) {
         (Unifiable::SComplex(x), Unifiable::SComplex(y)) => anon_match_seq(x@, y@),
+        (Unifiable::SLinkedList{term: t1, next: n1, count: _, tail_var: tv1},
+         Unifiable::SLinkedList{term: t2, next: n2, count: _, tail_var: tv2}) =>
+            if tv1 && tv2 { anon_match(*t1, *t2) }
+            else if tv1 { *t1 is Anonymous }
+            else if tv2 { *t2 is Anonymous }
+            else if *t1 == Unifiable::Nil && *t2 == Unifiable::Nil { true }
+            else if *t1 == Unifiable::Nil || *t2 == Unifiable::Nil { false }
+            else { anon_match(*t1, *t2) && anon_match(*n1, *n2) },
         _ => false,
     }
 }
@@ -232,6 +240,22 @@ pub open spec fn anon_match_seq(a: Seq<Unifiable>, b: Seq<Unifiable>) -> bool
     a.len() == b.len() && (a.len() == 0 || (anon_match(a[0], b[0]) && anon_match_seq(a.drop_first(), b.drop_first())))
 }
 
+// one step down two list nodes that match through `$_`
+pub proof fn lemma_anon_match_nodes(x: Unifiable, y: Unifiable)
+    requires x is SLinkedList, y is SLinkedList, anon_match(x, y),
+             !x->SLinkedList_tail_var, !y->SLinkedList_tail_var,
+             *x->SLinkedList_term != Unifiable::Nil || *y->SLinkedList_term != Unifiable::Nil,
+    ensures
+        anon_match(*x->SLinkedList_term, *y->SLinkedList_term),
+        anon_match(*x->SLinkedList_next, *y->SLinkedList_next),
+        *x->SLinkedList_term != Unifiable::Nil, *y->SLinkedList_term != Unifiable::Nil,
+{
+    if ueq(x, y) {
+        assert(ueq(*x->SLinkedList_term, *y->SLinkedList_term));
+        assert(ueq(*x->SLinkedList_next, *y->SLinkedList_next));
+    }
+}
+
 pub proof fn lemma_anon_match_seq_index(a: Seq<Unifiable>, b: Seq<Unifiable>, i: int)
     requires anon_match_seq(a, b), 0 <= i < a.len(),
     ensures anon_match(a[i], b[i]),
@@ -240,7 +264,7 @@ pub proof fn lemma_anon_match_seq_index(a: Seq<Unifiable>, b: Seq<Unifiable>, i:
     if i > 0 { lemma_anon_match_seq_index(a.drop_first(), b.drop_first(), i - 1); }
 }
 
-// matching through `$_` never creates or changes a binding, at any depth of complex terms (C09)
+// matching through `$_` never creates or changes a binding, at any depth of complex terms and lists (C09)
 pub open spec fn post_anon_deep(a: Unifiable, b: Unifiable, ss: RSS, res: Option<RSS>) -> bool {
-    anon_match(a, b) && !(a is SFunction) && !(b is SFunction) ==> res == Some(ss)
+    anon_match(a, b) ==> res == Some(ss)
 }
